@@ -193,21 +193,43 @@ class History(object):
         return OTHER
 
     def project(self, n):
-        ignore = []
-        for x in range(1, n + 1):
-            ignore.append(sorted(self.ctx_id.get(c, OTHER) for c in dr.IGNORE.get(self.impl[x], ())))
-        table = self.base.context_handlers.get(self.name, {})
-        handlers = []
-        for c in range(1, self.nctx + 1):
-            handlers.append([self.idx_of(o) for o in table.get(self.ctx[c], [])])
-        foreign = [c for c in table if c not in self.ctx_id and table[c]]
-        if foreign:
-            handlers.append([OTHER])
-        deps = []
-        for l, pt in enumerate(self.lvl_point):
-            nxt = self.lvl_point[l + 1] if l + 1 < len(self.lvl_point) else None
-            deps.append([0 if o is nxt else self.idx_of(o) for o in dr.get_delegate(pt).deps])
-        return ignore, handlers, deps
+        """Projection of the real bookkeeping (dr.IGNORE, SpecSet.context_handlers, the points' dependency
+        lists).  These are INTERNAL tables: whatever cannot be read in the expected shape is reported as
+        unreadable (rd[...] = False) and then not constrained by the trace specification - the verdict on such
+        a tree comes from the evaluations alone."""
+        rd = {"ignore": True, "handlers": True, "deps": True}
+        ignore, handlers, deps = [], [], []
+        try:
+            for x in range(1, n + 1):
+                entry = dr.IGNORE.get(self.impl[x], ())
+                if not isinstance(entry, (set, frozenset, list, tuple)):
+                    raise TypeError("unexpected IGNORE entry")
+                ignore.append(sorted(self.ctx_id.get(c, OTHER) for c in entry))
+        except Exception:
+            rd["ignore"], ignore = False, []
+        try:
+            top = self.base.context_handlers
+            if not isinstance(top, dict):
+                raise TypeError("unexpected context_handlers")
+            table = top.get(self.name, {})
+            if not isinstance(table, dict):
+                raise TypeError("unexpected context_handlers[name]")
+            for c in range(1, self.nctx + 1):
+                lst = table.get(self.ctx[c], [])
+                if not isinstance(lst, (list, tuple)):
+                    raise TypeError("unexpected handler list")
+                handlers.append([self.idx_of(o) for o in lst])
+            if [c for c in table if c not in self.ctx_id and table[c]]:
+                handlers.append([OTHER])
+        except Exception:
+            rd["handlers"], handlers = False, []
+        try:
+            for l, pt in enumerate(self.lvl_point):
+                nxt = self.lvl_point[l + 1] if l + 1 < len(self.lvl_point) else None
+                deps.append([0 if o is nxt else self.idx_of(o) for o in dr.get_delegate(pt).deps])
+        except Exception:
+            rd["deps"], deps = False, []
+        return ignore, handlers, deps, rd
 
     # -- evaluation --------------------------------------------------------
     def evaluate(self, e):
@@ -284,14 +306,20 @@ def run_history(h, rng):
     try:
         events = []
         for i, d in enumerate(h["impls"]):
-            hist.register(i + 1, d)
-            ignore, handlers, deps = hist.project(i + 1)
+            try:
+                hist.register(i + 1, d)
+            except Exception as ex:       # the class definition itself failed: an observation, not a driver error
+                events.append({"ev": "regfail", "exc": type(ex).__name__,
+                               "d": {"k": d["k"], "cs": list(d["cs"]), "j": d["j"], "lvl": d.get("lvl", 0)}})
+                return {"id": h["id"], "kind": "gen", "nctx": h["nctx"], "levels": h.get("levels", 0),
+                        "events": events, "plain_ctx": hist.plain_ctx}
+            ignore, handlers, deps, rd = hist.project(i + 1)
             events.append({"ev": "reg", "d": {"k": d["k"], "cs": list(d["cs"]), "j": d["j"], "lvl": d.get("lvl", 0)},
-                           "ignore": ignore, "handlers": handlers, "deps": deps})
+                           "ignore": ignore, "handlers": handlers, "deps": deps, "rd": rd})
             if rng.random() < 0.15:
                 hist.deep_noise(i + 1)
-                ignore, handlers, deps = hist.project(i + 1)
-                events.append({"ev": "noop", "ignore": ignore, "handlers": handlers, "deps": deps})
+                ignore, handlers, deps, rd = hist.project(i + 1)
+                events.append({"ev": "noop", "ignore": ignore, "handlers": handlers, "deps": deps, "rd": rd})
         for e in h["evals"]:
             events.append(hist.evaluate(e))
         return {"id": h["id"], "kind": "gen", "nctx": h["nctx"], "levels": h.get("levels", 0), "events": events,
